@@ -63,19 +63,23 @@ def make_spec(c):
         if c.get(k):
             spec["page"][k] = c[k]
     keys = c.get("keys") or [0] * n
+    inner = keys
+    if c.get("special"):  # one group of the innermost page_by level holds the divider '-----', null or an empty text
+        sp = c["special"]
+        inner = [({"divider": -1, "null": None, "blank": "blank"}[sp["value"]] if k == sp["group"] else k) for k in keys]
     if strat in ("page_by", "page_by_newpage_column", "page_by_newpage_firstrow"):
-        spec["page_by"] = [keys]
+        spec["page_by"] = [inner]
         if strat != "page_by":
             spec["new_page"] = True
             spec["pageby_row"] = "column" if strat.endswith("column") else "first_row"
     elif strat == "page_by2":
         outer = [k // 2 for k in keys]
-        spec["page_by"] = [outer, keys]
+        spec["page_by"] = [outer, inner]
     elif strat == "subline_by":
         spec["subline_by"] = [keys]
     elif strat == "subline_by+page_by":
         spec["subline_by"] = [[k // 2 for k in keys]]
-        spec["page_by"] = [keys]
+        spec["page_by"] = [inner]
     if c.get("heights"):
         spec["heights"] = c["heights"]
     gcols = [k for k in ("g0", "g1", "u0") if (k.startswith("g") and len(spec.get("page_by") or []) > int(k[1])) or (k == "u0" and spec.get("subline_by"))]
@@ -191,7 +195,7 @@ def plan(run):
     quick = run.tier == "quick"
     nmax = 8 if quick else 12
     run.rule = (f"rows n in 0..{nmax} x nrow in {NROWS} x strategy in {STRATS} x every composition of the rows into group runs (n<=6; run lengths "
-                "{1,2,n-1,n} beyond; every composition again for n=11 (thorough 9..13) on pages of 10 and 50 rows) x height vectors {1,2}^n (n<=5, plain and page_by; quick n<=4) x removed column first/middle/last; radius-1 deviations: header "
+                "{1,2,n-1,n} beyond; every composition again for n=11 (thorough 9..13) on pages of 10 and 50 rows; every composition of 5 rows (thorough 4..7) with one group holding '-----', null or '') x height vectors {1,2}^n (n<=5, plain and page_by; quick n<=4) x removed column first/middle/last; radius-1 deviations: header "
                 "mode, footnote/source mode, placements, value classes incl. blank-padded strings, ints, floats, nulls, text_convert off with '^ _ >= <='. "
                 "non-trivial = >= 2 pages or a removed column or a wrapped row; distinct = distinct case")
     run.assumptions = ["data cells are identified by D<r>.<c> tags (A/B per section); numeric columns by position", "group_by is absent (C13 covers suppression)"]
@@ -233,6 +237,16 @@ def plan(run):
                 for keys in compositions(n):
                     longp.append({"n": n, "nrow": nrow, "strat": strat, "keys": keys, "pos": ("first", "middle", "last")[(len(longp) + run.seed) % 3]})
     run.layer("long-pages-all-compositions", "mc.props.c02:eval_case", longp, chunk=100, total=len(longp))
+    # group values without a heading text: every composition x every single group replaced by the divider '-----', null or ''
+    spc = []
+    for n in ((5,) if quick else (4, 5, 6, 7)):
+        for keys in compositions(n):
+            for g in range(max(keys) + 1):
+                for val in ("divider", "null", "blank"):
+                    for strat in ("page_by", "page_by2", "subline_by+page_by", "page_by_newpage_firstrow"):
+                        for nrow in (50, 3):
+                            spc.append({"n": n, "nrow": nrow, "strat": strat, "keys": keys, "pos": "first", "special": {"group": g, "value": val}})
+    run.layer("groups-without-heading-text", "mc.props.c02:eval_case", spc, chunk=100, total=len(spc))
     # radius-1 deviations around paginated anchors
     dev = []
     anchors = [{"n": 6, "nrow": 3, "strat": s, "keys": [0, 0, 1, 1, 2, 2], "pos": "middle"} for s in ("plain", "page_by", "subline_by", "page_by_newpage_firstrow")]
